@@ -48,6 +48,7 @@ from fractions import Fraction as F
 
 import common
 from common import err_kind
+import props.c02_tr as tr
 
 ID = "C02"
 RULE = ("every registry stage x >=3 parameter sets x 3 source modes (finite+slack, exact+trip-wire, endless), "
@@ -61,6 +62,9 @@ RULE = ("every registry stage x >=3 parameter sets x 3 source modes (finite+slac
         "(positional / keyword / defaults) and 4 kinds of head source object, drained stages asked twice past the end, plus 13 "
         "two-source constructors (map / zip / chain / zip_longest objects) over all source lengths 0..2 x 0..2 and random 0..9, "
         "asked up to 14 times with a counter on both sources; "
+        "plus, outside the cases, the source translator: regenerated Gen/C02Src.lean must equal the committed text and 13 "
+        "edited source texts (swapped comparison, changed constant, reordered loops, dropped loop, eager list(), extra read) must "
+        "each change the translation or fail to translate; "
         "a case is non-trivial when at least one output was demanded and delivered; distinct = distinct JSON case")
 TRUSTED = [
     "hand-written Lean models ALV/Model/C02.lean of the READ DISCIPLINE of each stage (prologue / one read per loop "
@@ -92,6 +96,19 @@ TRUSTED = [
     "count spellings: Python's round (half to even) for limit / skip, audiolazy's rint (half away from zero) for take / peek, "
     "int(dur + .5) for attack are re-implemented on exact rationals in Lean (pyRound / rintPos / durLen); floats are sent as "
     "their exact rational value, inf / nan as tags with the predicted exception",
+    "translator harness/props/c02_tr.py (ast -> lean/ALV/Gen/C02Src.lean, rewritten on every run; theorems src_*_is_model): "
+    "it trusts (a) the Python subset semantics it assumes - a generator body made of `for _ in xrange(c): yield x` (no read), "
+    "`for _ in xrange(c): try: next(src) except StopIteration: return`, `try: v = next(it) except StopIteration: return`, "
+    "`for el in src: yield el` runs these loops in order, one source item per turn of a reading loop, and a method body "
+    "`self._data = <wrap>(self._data); return self` replaces the data iterator by that wrap; straight-line `if c: return r` / "
+    "`if c: n = e` / `return r` statements; (b) the vocabulary mapping - it.islice(data, stop) -> isliceStop (CPython's "
+    "two-argument islice: exit test before a read), xrange(c) / islice stop accept ints only (Sink.accept), round / int / max / "
+    "isinf / isinstance(., float) / `+` / `>` / `and` / conditional expression on int, bool, Fraction, finite float, inf, nan as "
+    "re-implemented in ALV/Model/C02Src.lean (PE.eval; math.isinf of an int beyond float range is not modelled), audiolazy's "
+    "rint as half-away-from-zero (its body is not translated); (c) the three phase-shape -> Stage templates of the translator "
+    "(emit* pass emit*, drop pass, first emit* pass). The selftest runs the translator on 13 edited source texts on every run; "
+    "the translated functions stay under the differential pull counting as well, so a translator that mis-reads a body shows "
+    "there",
     "API completeness tables COVER / EXCLUDE / PARAMS in harness/props/c02.py are hand-written; the check enforces that they "
     "are total and current with respect to audiolazy.__all__, the strategy dictionaries and the public methods, and that "
     "parameter names match the signatures - not that a role (`scalar`) is right",
@@ -117,7 +134,11 @@ ASSUMPTIONS = [
 ]
 MANIFEST = {"technique": "Lean 4 proof (generic transducer theory, per-stage need theorems, stages with an exit test: "
                          "truncation / past-the-end / limit and takewhile closed forms, rounding of spelled counts) tied to "
-                         "/repo by differential pull counting with counting / trip-wire / endless sources, requests past the "
+                         "/repo (1) by a TRANSLATOR (harness/props/c02_tr.py: the bodies of Stream.limit / skip / take / peek, "
+                         "zero_pad and attack are read with ast on every run and regenerated as Lean definitions - count "
+                         "expressions and take's statements as interpreted program values, generator bodies as Stage literals "
+                         "- which theorems src_*_is_model prove equal to the model functions the other theorems are about) "
+                         "and (2) for every stage by differential pull counting with counting / trip-wire / endless sources, requests past the "
                          "end, and a registry proved complete against the public API at run time",
             "note": "68 stage constructors in the registry (incl. attack, chunks, groupby, pairwise, batched, starmap), 4 stopping "
                     "stages; 46 elementwise functions probed; 111 public names excluded with a written reason; D22 "
@@ -1050,8 +1071,46 @@ def _probe_elementwise(func, value=0.25):
     return c0, src.count
 
 
+def regenerate(eng=None):
+    """rewrite lean/ALV/Gen/C02Src.lean from the source text of the repo under test (harness/props/c02_tr.py)"""
+    return tr.regenerate(eng)
+
+
+def _translator_checks(eng):
+    eng.extra["translated"] = {
+        "translator": "harness/props/c02_tr.py -> lean/ALV/Gen/C02Src.lean",
+        "under_the_translator": [{"function": f, "file": "audiolazy/" + fn, "how": how} for f, fn, how in tr.TRANSLATED],
+        "theorems": ["src_limit_is_model", "src_limit_count_is_model", "src_skip_is_model", "src_skip_count_is_model",
+                     "src_take_is_model", "src_peek_is_model", "src_zero_pad_is_model", "src_attack_is_model",
+                     "src_attack_lens_is_model", "src_defaults_is_model", "src_limit_probe", "src_attack_need"],
+        "not_translated": [{"function": f, "why": why} for f, why in tr.NOT_TRANSLATED],
+    }
+    try:
+        base, rows = tr.selftest()
+    except Exception as e:
+        yield ("translator-selftest", False, "the unedited source does not translate: %s: %s" % (type(e).__name__, e))
+        return
+    eng.extra["translated"]["selftest"] = [{"edit": l, "outcome": o} for l, o in rows]
+    committed = tr.committed_text()
+    same = committed is not None and committed == base
+    bad = [l for l, o in rows if o == "SAME TEXT"]
+    skipped = [l for l, o in rows if o.startswith("edit not applicable")]
+    for l, o in rows:
+        eng.count("translator_selftest", o.split(":")[0])
+    # an edit that cannot be applied is a failure on a tree whose translation is the committed one (the edit list is stale);
+    # on a changed tree the changed function is reported by the byte comparison / the theorems anyway
+    ok = not bad and (not skipped or not same) and len(rows) - len(skipped) >= 3
+    yield ("translator-selftest", ok,
+           "edits that left the translation unchanged: %s; edits that could not be applied: %s" % (bad, skipped))
+    yield ("translator-reproduces-committed-file", same,
+           "the translation of the source under test differs from the committed lean/ALV/Gen/C02Src.lean (a translated "
+           "function was edited: the src_*_is_model theorems decide whether its meaning changed; recommit the file if not)")
+
+
 def extra_checks(eng):
     import inspect
+    for item in _translator_checks(eng):
+        yield item
     al = _al()
     R, X = registry(), xregistry()
     api = _public_api()
